@@ -578,6 +578,11 @@ impl<'a, Editor> CommandRunner<'a, Editor> {
                 CommandControlFlow::Continue
             }
             ParsedCommand::Reset => {
+                // the session starts over, and so does its history: a later `save` must
+                // not write definitions that the session no longer has
+                if let Some(session_history) = self.session_history.as_mut() {
+                    *session_history = SessionHistory::default();
+                }
                 if let Some(clear_fn) = self.clear.as_mut() {
                     let _ = clear_fn(editor);
                 }
